@@ -10,7 +10,7 @@ from ..model import MP, first_diff
 
 ID = "C03"
 OWNS_CONSTRUCTION = True
-BUDGET = {"quick": 2400, "thorough": 8000}
+BUDGET = {"quick": 2400, "thorough": 16000}
 TECHNIQUE = ("invariant monitor over the results of every catalogue entry (and two-step programs) + three rebuild "
              "round-trips; Hypothesis-generated attribute triples vs a model of the cleaning rules")
 LEVEL_TEXT = ("(a) every ndpoly returned (also inside tuples/lists) by every catalogue entry on generated inputs, and "
